@@ -452,15 +452,20 @@ def root_spelling(ctx, RSP, P) -> None:
             helper_ok = {"self._decode_path"}
         ctx.check(bool(helper_ok), RSP, "InotifyEmitter._decode_path is a codec", f"the decode helper can return {sorted(o)}: not the parameter passed through os.fsdecode at most", dh.loc)
     ncmp = 0
-    for n in ast.walk(q.node):
-        if isinstance(n, ast.Compare) and len(n.ops) == 1 and isinstance(n.ops[0], (ast.Eq, ast.NotEq)):
-            sides = [n.left, n.comparators[0]]
-            ws = [x for x in sides if any(b == "self.watch.path" for b, _ in origins(q.node, x))]
-            if len(ws) == 1:
-                other = sides[1] if ws[0] is sides[0] else sides[0]
-                ncmp += 1
-                judge(q, ws[0], lambda b: b == "self.watch.path", "InotifyEmitter.queue_events root test, watch side", line=n.lineno)
-                judge(q, other, lambda b: b.endswith(".src_path"), "InotifyEmitter.queue_events root test, record side", codecs=CODECS | helper_ok, line=n.lineno)
+    # the test may sit in queue_events itself or in a private method it hands the record to
+    for q in P.self_closure("InotifyEmitter", "queue_events"):
+        if q.name in ("_decode_path", "queue_event", "stop"):
+            continue
+        for n in ast.walk(q.node):
+            if isinstance(n, ast.Compare) and len(n.ops) == 1 and isinstance(n.ops[0], (ast.Eq, ast.NotEq)):
+                sides = [n.left, n.comparators[0]]
+                ws = [x for x in sides if any(b == "self.watch.path" for b, _ in origins(q.node, x))]
+                if len(ws) == 1:
+                    other = sides[1] if ws[0] is sides[0] else sides[0]
+                    ncmp += 1
+                    judge(q, ws[0], lambda b: b == "self.watch.path", "InotifyEmitter.queue_events root test, watch side", line=n.lineno)
+                    judge(q, other, lambda b: b.endswith(".src_path"), "InotifyEmitter.queue_events root test, record side", codecs=CODECS | helper_ok, line=n.lineno)
+    q = need("InotifyEmitter", "queue_events")
     if ncmp == 0:
         raise AnalysisError("anchor vanished: InotifyEmitter.queue_events does not compare a record path with watch.path")
 
